@@ -247,7 +247,7 @@ class _NoCloseText(io.StringIO):
         pass
 
 
-def run_history(fmt, steps, nwriters=2, u="main"):
+def run_history(fmt, steps, nwriters=2, u="main", share=False):
     """Concrete: write the history (kind index, writer index) through real writers, read every stream back with the real
     reader; returns None if every stream yields its own records with exactly their descriptors, else a description."""
     from flow.record.adapter.jsonfile import JsonfileReader, JsonfileWriter
@@ -262,8 +262,10 @@ def run_history(fmt, steps, nwriters=2, u="main"):
         bufs = [_NoCloseText() for _ in range(nwriters)]
         ws = [JsonfileWriter(b) for b in bufs]
     written = [[] for _ in range(nwriters)]
+    objs = {}
     for kind, w in steps:
-        rec = U[kind]()
+        # share: the application writes the SAME record object whenever the kind recurs (e.g. one record sent to two outputs)
+        rec = objs.setdefault(kind, U[kind]()) if share else U[kind]()
         if (u, kind) in FAILING:
             # the application catches the error and goes on writing: nothing of this record may be in the stream
             try:
@@ -322,7 +324,7 @@ def prestate(fmt: str, nxt: int, u: str = "main"):
     return check
 
 
-def history(fmt: str, k: int, first: int, u: str = "main"):
+def history(fmt: str, k: int, first: int, u: str = "main", share: bool = False):
     """first = code of the first step (kind * 2 + writer); the remaining k-1 steps are symbolic"""
     from crosshair.tracers import NoTracing
 
@@ -341,7 +343,7 @@ def history(fmt: str, k: int, first: int, u: str = "main"):
                 if c == j:
                     steps.append((j // 2, j % 2))
         with NoTracing():
-            return run_history(fmt, steps, 2, u) is None
+            return run_history(fmt, steps, 2, u, share) is None
 
     return check
 
@@ -355,6 +357,10 @@ def obligations(tier, seed):
         k = 3 if tier == "quick" else 4
         for first in range(2 * NKINDS):
             obs_.append(ob(f"O3-history/{fmt}/K{k}/first{first}", "xh", "history", {"fmt": fmt, "k": k, "first": first}, timeout=to, group=f"O3-history/{fmt}", bounds=f"{k} steps x {NKINDS} kinds x 2 writers"))
+        # the same record OBJECT written again (to the other writer or the same one): state kept on a record must not stand in for
+        # what a writer has to emit
+        for first in range(2 * NKINDS):
+            obs_.append(ob(f"O3-history-shared/{fmt}/K3/first{first}", "xh", "history", {"fmt": fmt, "k": 3, "first": first, "share": True}, timeout=to, group=f"O3-history-shared/{fmt}", bounds=f"3 steps x {NKINDS} kinds x 2 writers, one record object per kind"))
         # second universe (grouped records of equal flat layout, look-alike type names, a failing write)
         for first in range(2 * NAUX):
             obs_.append(ob(f"O3-history-aux/{fmt}/K{k}/first{first}", "xh", "history", {"fmt": fmt, "k": k, "first": first, "u": "aux"}, timeout=to, group=f"O3-history-aux/{fmt}", bounds=f"{k} steps x {NAUX} kinds x 2 writers"))
@@ -365,7 +371,7 @@ def obligations(tier, seed):
 
 
 # ------------------------------------------------------------------------------------------------ replay (path based)
-def real_history(fmt, steps, u="main"):
+def real_history(fmt, steps, u="main", share=False):
     from flow.record import RecordReader, RecordWriter
 
     U = universe(u)
@@ -373,8 +379,9 @@ def real_history(fmt, steps, u="main"):
         paths = [os.path.join(d, f"w{i}." + ("records" if fmt == "stream" else "json")) for i in (0, 1)]
         ws = [RecordWriter(p) for p in paths]
         written = [[], []]
+        objs = {}
         for kind, w in steps:
-            rec = U[kind]()
+            rec = objs.setdefault(kind, U[kind]()) if share else U[kind]()
             if (u, kind) in FAILING:
                 try:
                     ws[w].write(rec)
@@ -420,7 +427,7 @@ def replay(res):
         for c in [v.get("c1"), v.get("c2"), v.get("c3")][: a["k"] - 1]:
             if isinstance(c, int) and 0 <= c < 2 * n:
                 steps.append((c // 2, c % 2))
-    problem = real_history(a["fmt"], steps, u)
+    problem = real_history(a["fmt"], steps, u, a.get("share", False))
     if problem is None:
         return {"reproduced": False, "what": f"history {steps} reads back exactly through the path-based writers/readers"}
     names_ = ["collidingA", "collidingB", "same-name", "holder(record)", "holder(record[])", "grouped", "nested-group", "same-name-holder"]
@@ -428,4 +435,4 @@ def replay(res):
         names_ = ["group[host,geo_v1]", "group[host,geo_v2]", "group[hostgeo]", "geo_v2", "t/p_q", "t_p/q", "t_p_q", "failing-write", "fragile-good"]
     hist = [(names_[k], w) for k, w in steps]
     key = "C03/identifier-collision" if u == "main" and any(k in (0, 1) for k, _ in steps) and "identifier" in problem else f"C03/{a['fmt']}/{u}/{steps}"
-    return {"reproduced": True, "key": key, "what": f"{a['fmt']}: history {hist}: {problem}"[:700], "input": {"fmt": a["fmt"], "steps": steps}}
+    return {"reproduced": True, "key": key, "what": f"{a['fmt']}: history {hist}{' (one record object per kind)' if a.get('share') else ''}: {problem}"[:700], "input": {"fmt": a["fmt"], "steps": steps, "share": a.get("share", False)}}
